@@ -151,7 +151,15 @@ Section Spec.
         | VStr m =>
             match alookup m (proj_of s (sessS s si)) with
             | Some j => (new_handle s (sessS s si) (j_sp j) true, SAny)
-            | None => (new_handle s (sessS s si) JNull true, SErr EKeyError)    (* a job that does not exist was opened *)
+            | None =>
+                (* no such job: KeyError - unless a live handle of this process holds (held) a state point with this
+                   id, registered in the Project's in-memory cache: then open_job(id=...) is open_job(that state point),
+                   a handle to a job that is not initialised (which Project objects know it is checked by the model
+                   correspondence, not here) *)
+                match find (fun sp => str_eqb (cid sp) m) (ss_cells s) with
+                | Some sp => (new_handle s (sessS s si) sp false, SAny)
+                | None => (new_handle s (sessS s si) JNull true, SErr EKeyError)
+                end
             end
         | _ => (s, SAny)
         end
@@ -242,7 +250,9 @@ Section Spec.
     | ORemove h =>
         let x := hS s h in
         let s1 := set_proj s (sh_root x) (aremove (cid (cellS s (sh_cell x))) (proj_of s (sh_root x))) in
-        (set_hS s1 h (mkSH (sh_root x) (sh_cell x) false None (sh_byid x)), SOk)
+        (* bookkeeping for finding 3: remove() of a job that is already gone leaves the handle's document object alone *)
+        (set_hS s1 h (mkSH (sh_root x) (sh_cell x) false
+                           (match job_of s h with Some _ => None | None => sh_doc x end) (sh_byid x)), SOk)
     | OClear h =>
         match job_of s h with
         | Some j => (mark_doc (set_job s h (mkSJ (j_sp j) (JObj []) [] (j_gen j))) h, SOk)
@@ -272,6 +282,14 @@ Section Spec.
     | Some h, VExn EJobsCorrupted =>
         if sh_byid (hS s h) && match job_of s h with None => true | Some _ => false end
         then (s, SErr EJobsCorrupted) else sstep0 s o out
+    (* ... and its cached_statepoint / repr, never read while the job existed, answers like open_job(id=<unknown>) *)
+    | Some h, VExn EKeyError =>
+        match o with
+        | OCached _ =>
+            if sh_byid (hS s h) && match job_of s h with None => true | Some _ => false end
+            then (s, SErr EKeyError) else sstep0 s o out
+        | _ => sstep0 s o out
+        end
     | _, _ => sstep0 s o out
     end.
 
@@ -330,7 +348,7 @@ Section Spec.
   (* tags 1, 2, 5, 6, 7 were repaired in /repo (5a38a4a, 5e72814, 270ca63, b6340e2, d38783c) and are no longer
      classified.  tag 3: a document-touching operation through a stale handle; tag 4: a state point change
      raises the lock registry's KeyError *)
-  Definition trigger (s : sstate) (o : op) (r : sres) (out : oval) : nat :=
+  Definition trigger0 (s : sstate) (o : op) (r : sres) (out : oval) : nat :=
     match o with
     | OEdit _ _ _ | OAssign _ _ | OUpdateSp _ _ _ =>
         match r, out with
@@ -338,19 +356,41 @@ Section Spec.
         | _, VExn EKeyError => 4
         | _, _ => 0
         end
-    | ODoc h | ODocSet h _ _ | ODocReset h _ | OClear h | OReset h | ORemove h =>
+    (* only the operations that really misbehave on /repo through a stale handle: a document read (does not re-create
+       the job), a document write (FileNotFoundError, or the stale in-memory document is written into the re-created
+       job).  clear() / reset() / remove() / init() through a stale handle look at the file system and are checked
+       exactly. *)
+    | ODoc h | ODocSet h _ _ | ODocReset h _ =>
         if stale_handle s h then 3 else 0
+    | _ => 0
+    end.
+
+  (* a document operation through a stale handle INSIDE the freshly started process (same finding 3) *)
+  Fixpoint ftrig3 (s : sstate) (nhs : list nat) (fs : list fop) (outs : list oval) : bool :=
+    match fs, outs with
+    | f :: fs', o :: outs' =>
+        let '(s1, r) := sstep s (fop_op nhs f) o in
+        Nat.eqb (trigger0 s (fop_op nhs f) r o) 3 || ftrig3 s1 nhs fs' outs'
+    | _, _ => false
+    end.
+
+  Definition trigger (s : sstate) (o : op) (r : sres) (out : oval) : nat :=
+    match o with
     (* tag 8: a handle unpickled in a freshly started process has no lock-registry entries: every state point change
        through it, and every write through its already materialised document, raises KeyError *)
-    | OFresh _ _ fs =>
+    | OFresh h1 h2 fs =>
         match out with
         | VList outs =>
             if existsb (fun fo => match fo with
                                   | (FEdit _ _ _, VExn EKeyError) | (FDocSet _ _ _, VExn EKeyError) => true
-                                  | _ => false end) (combine fs outs) then 8 else 0
+                                  | _ => false end) (combine fs outs) then 8
+            else
+              let '(s1, nhs) := srestore (add_sessS s (sh_root (hS s h1)))
+                                         (h1 :: match h2 with Some h => [h] | None => [] end) [] [] in
+              if ftrig3 s1 nhs fs outs then 3 else 0
         | _ => 0
         end
-    | _ => 0
+    | _ => trigger0 s o r out
     end.
 
   (* ---------------------------------------------------------------- the oracle *)
@@ -449,11 +489,13 @@ Definition first_bad (c : case_C03) : option nat * list (nat * nat) :=
 Definition holds_C03 (c : case_C03) : bool := match fst (first_bad c) with None => true | Some _ => false end.
 Definition violation_C03 (c : case_C03) : bool := negb (holds_C03 c).
 
-(* the most recent trigger at or before the first violating step *)
+(* the trigger AT the first violating step (snapshots are taken after every operation, so each known defect shows
+   at the very step that triggers it; a violation at a step without trigger is never classified, whatever happened
+   earlier in the history) *)
 Definition known_tag3 (c : case_C03) : nat :=
   match first_bad c with
   | (Some k, trg) =>
-      match filter (fun x => Nat.leb (fst x) k) trg with
+      match filter (fun x => Nat.eqb (fst x) k) trg with
       | (_, t) :: _ => t
       | [] => 0
       end
